@@ -2,13 +2,21 @@
    Proved: the gate lemmas of the parser model and of the analysis model, one pair per
    extension (extension off: its syntax is never consulted and the core reading results;
    extension on but trigger absent: same result as off); their composition over the step loop
-   (C02_step_invariant_partial, C02_block_invariant_partial: a step block of core tokens gives
-   the same events for every configuration that differs only in the extension bits); and the
-   enumeration of the 192 extension sets over the REGENERATED bit values.
-   C02_full_statement (whole documents of the statement's class) is NOT proved: it is kept
-   visible as a Definition and monitored on the implementation under all 192 sets. *)
-From CL Require Import Base.StrLemmas Model.Parser Gen.CharClass Proofs.ParserGates Proofs.C02Invariance.
-From CL Require Model.Analysis Proofs.C02AnalysisGates.
+   (C02_step_invariant_partial, C02_block_invariant_partial: first, narrow class; then
+   C02_step_invariant, C02_block_invariant over the wider class core2 / block_ok that admits
+   unit-less quantities, `-`, timers with a quantity and every block kind); the lift to whole
+   documents (C02_events_invariant: same event stream for any two extension words when every
+   block of the source is block_ok; C02_meta_events_invariant unconditionally); the analysis
+   pass on quiet event streams (C02_analyse_invariant) and both halves together
+   (C02_pipeline_invariant_partial); and the enumeration of the 192 extension sets over the
+   REGENERATED bit values.
+   C02_full_statement is NOT proved: what is missing is that core_doc alone makes the
+   metadata and ingredient events quiet (proved for ingredients at the component level:
+   C02_ingredient_plain); it is kept visible as a Definition and monitored on the
+   implementation under all 192 sets. *)
+From CL Require Import Base.StrLemmas Model.Parser Gen.CharClass Proofs.ParserGates Proofs.C02Invariance
+  Proofs.C02Wide Model.EventBridge Proofs.C02Pipeline.
+From CL Require Model.Analysis Proofs.C02AnalysisGates Proofs.C02AnalyseInv.
 
 Theorem C02_range_off : forall cfg ts, has cfg X_RANGE_VALUES = false -> range_value cfg ts = None.
 Proof. exact range_off. Qed.
@@ -144,6 +152,19 @@ Theorem C02_timer_units_untriggered :
     timer unit_class (with_advanced x true) s t = timer unit_class (with_advanced x false) s t.
 Proof. exact timer_units_untriggered. Qed.
 Print Assumptions C02_timer_units_untriggered.
+
+(* the collector on a quiet stream (no bracketed key, no number+known-unit phrase in step text,
+   timers with a number and a time unit, no reference modifier): same recipe, validity and
+   output under ANY two extension records; induction over the stream with the invariant
+   "define = all, duplicate = new" *)
+Import CL.Proofs.C02AnalyseInv.
+Theorem C02_analyse_invariant :
+  forall ci_key yaml_ok find_iq unit_class input cfg x1 x2 evs,
+    forallb (quiet_event find_iq unit_class) evs = true ->
+    analyse ci_key yaml_ok find_iq unit_class input x1 cfg evs
+    = analyse ci_key yaml_ok find_iq unit_class input x2 cfg evs.
+Proof. exact analyse_quiet. Qed.
+Print Assumptions C02_analyse_invariant.
 End AnalysisSide.
 
 (* ---- composition: quantities, components, the step loop ------------------------------------ *)
@@ -188,11 +209,137 @@ Example C02_core_tokens_rejects_unit_without_percent :
   end = false.
 Proof. vm_compute. reflexivity. Qed.
 
-(* ---- the full statement, parser half: NOT proved (monitored by checks/c02.py) -------------- *)
-(* every source of the statement's class (core_source: Proofs/C02Invariance.v section 7) gives the
-   same event stream under any two of the 192 sets; the analysis half adds: analysing that
-   stream with any two sets gives the same recipe and reports no error. *)
+(* ---- the wider class (Proofs/C02Wide.v) ------------------------------------------------------ *)
+(* ADVANCED_UNITS on, no `%`: the shape of the tokens alone sends the quantity down the regular
+   path ({2}, {some}, {1/2}, {=3}, {2x}: no word, word first, or no blank before the first word) *)
+Theorem C02_advanced_untriggered_shape :
+  forall cfg q evs, adv_none q = true ->
+    exists s', parse_advanced_quantity cfg {| b_all := q; b_done := []; b_rest := q; b_evs := evs |} = Done (None, s')
+               /\ b_evs s' = evs.
+Proof. exact adv_none_sound. Qed.
+Print Assumptions C02_advanced_untriggered_shape.
+
+(* RANGE_VALUES on: a `-` that has no number on both sides is no range *)
+Theorem C02_range_untriggered_numbers :
+  forall cfg ts, range_quiet ts = true -> range_value cfg ts = None.
+Proof. exact range_value_quiet. Qed.
+Print Assumptions C02_range_untriggered_numbers.
+
+Theorem C02_quantity_invariant_wide :
+  forall cfg e1 e2 q s, adv_none q = true -> range_quiet (value_tokens q) = true ->
+    parse_quantity (with_ext cfg e1) q s = parse_quantity (with_ext cfg e2) q s.
+Proof. exact parse_quantity_inv2. Qed.
+Print Assumptions C02_quantity_invariant_wide.
+
+(* timers with a quantity in braces: TIMER_REQUIRES_TIME is not consulted *)
+Theorem C02_timer_invariant :
+  forall cfg e1 e2 s, core2 (b_rest s) = true -> timer_p (with_ext cfg e1) s = timer_p (with_ext cfg e2) s.
+Proof. exact timer_inv2. Qed.
+Print Assumptions C02_timer_invariant.
+
+(* step blocks of the class core2: unit-less quantities, `-` and `|` outside values and names,
+   `& ? +` anywhere but right after a marker, timers with a quantity *)
+Theorem C02_step_invariant :
+  forall cfg e1 e2 s, core2 (b_rest s) = true -> parse_step (with_ext cfg e1) s = parse_step (with_ext cfg e2) s.
+Proof. exact parse_step_inv2. Qed.
+Print Assumptions C02_step_invariant.
+
+(* the class of the first two invariance theorems is contained in the wider one *)
+Theorem C02_class_widened : forall ts, core_tokens ts = true -> core2 ts = true.
+Proof. exact core_tokens_core2. Qed.
+Print Assumptions C02_class_widened.
+
+(* on a core block an ingredient event carries no modifier bits and no intermediate data (this
+   is what makes it "quiet" for the analysis pass) *)
+Theorem C02_ingredient_plain :
+  forall cfg s ev s', core2 (b_rest s) = true -> ingredient_p cfg s = Done (Some ev, s') ->
+    exists i, ev = EvIngredient i /\ i_mods i = 0 /\ i_inter i = None.
+Proof. exact ingredient_plain. Qed.
+Print Assumptions C02_ingredient_plain.
+
+(* every block kind: `>>` line with a plain key, section line, `>` text block, step *)
+Theorem C02_block_invariant :
+  forall cfg e1 e2 old ts evs, block_ok cfg ts = true ->
+    run_block ts evs (parse_block (with_ext cfg e1) old) = run_block ts evs (parse_block (with_ext cfg e2) old).
+Proof. exact block_invariant2. Qed.
+Print Assumptions C02_block_invariant.
+
+(* whole documents: the parser half of C02_full_statement, proved completely for its class
+   core_doc (every block of the source is block_ok) and for ANY two extension words *)
+Theorem C02_events_invariant :
+  forall Ucls cfg e1 e2 s, core_doc Ucls cfg s = true ->
+    events Ucls (with_ext cfg e1) s = events Ucls (with_ext cfg e2) s.
+Proof. exact events_invariant. Qed.
+Print Assumptions C02_events_invariant.
+
+(* the metadata-only iterator does not consult the extensions at all: no side condition *)
+Theorem C02_meta_events_invariant :
+  forall Ucls cfg e1 e2 s, meta_events Ucls (with_ext cfg e1) s = meta_events Ucls (with_ext cfg e2) s.
+Proof. exact meta_events_invariant. Qed.
+Print Assumptions C02_meta_events_invariant.
+
+(* both halves: same events, and the same analysis result for any two extension records when
+   the bridged stream is quiet (see AnalysisSide.C02_analyse_invariant) *)
+Theorem C02_pipeline_invariant_partial :
+  forall Ucls cfg e1 e2 s evs ci_key yaml_ok find_iq unit_class input acfg x1 x2,
+    core_doc Ucls cfg s = true ->
+    events Ucls (with_ext cfg e1) s = Done evs ->
+    forallb (CL.Proofs.C02AnalyseInv.quiet_event find_iq unit_class) (abstract_events evs) = true ->
+    events Ucls (with_ext cfg e2) s = Done evs
+    /\ CL.Model.Analysis.analyse ci_key yaml_ok find_iq unit_class input x1 acfg (abstract_events evs)
+       = CL.Model.Analysis.analyse ci_key yaml_ok find_iq unit_class input x2 acfg (abstract_events evs).
+Proof. exact pipeline_invariant. Qed.
+Print Assumptions C02_pipeline_invariant_partial.
+
+(* the hypotheses are satisfiable: a recipe with a front matter, a plain `>>` line in the body, a
+   section, a text block, unit-less and fractional quantities, a locked quantity, a number-led
+   text value with `%`, `-` and `|` in step text, a note, and a timer with a time quantity:
+   ---\na: 1\n---\n>> k: v\n= Dough\n> rest well\n\nMix @flour{2} and @eggs{1/2}, @salt{=3} - a | b
+   @potatoes{2 medium%pieces}(peeled) #pot{some} ~{5%min} well-done *)
+Definition C02_sample_cfg : pcfg :=
+  {| p_ext := 0; p_debug := true; p_strict_escape := false; p_note_label_old := false; p_fm_anywhere := false |}.
+Definition C02_sample_source : str :=
+  [45;45;45;10;97;58;32;49;10;45;45;45;10;62;62;32;107;58;32;118;10;61;32;68;111;117;103;104;10;62;32;114;101;
+   115;116;32;119;101;108;108;10;10;77;105;120;32;64;102;108;111;117;114;123;50;125;32;97;110;100;32;64;101;
+   103;103;115;123;49;47;50;125;44;32;64;115;97;108;116;123;61;51;125;32;45;32;97;32;124;32;98;10;64;112;111;
+   116;97;116;111;101;115;123;50;32;109;101;100;105;117;109;37;112;105;101;99;101;115;125;40;112;101;101;108;
+   101;100;41;32;35;112;111;116;123;115;111;109;101;125;32;126;123;53;37;109;105;110;125;32;119;101;108;108;
+   45;100;111;110;101].
+Example C02_core_doc_satisfiable :
+  core_doc U C02_sample_cfg C02_sample_source = true
+  /\ (exists evs, events U (with_ext C02_sample_cfg 0) C02_sample_source = Done evs /\ (10 <= length evs)%nat).
+Proof. split; [vm_compute; reflexivity|]. eexists. split; [vm_compute; reflexivity | vm_compute; repeat constructor]. Qed.
+
+(* and the class still excludes what the statement excludes *)
+Example C02_core_doc_rejects :
+  (* "@a{1 kg}", "@a{2-3}", "~rest", "@a|b{}", ">> [mode]: x" *)
+  map (core_doc U C02_sample_cfg)
+    [[64;97;123;49;32;107;103;125]; [64;97;123;50;45;51;125]; [126;114;101;115;116]; [64;97;124;98;123;125];
+     [62;62;32;91;109;111;100;101;93;58;32;120]]
+  = [false; false; false; false; false].
+Proof. vm_compute. reflexivity. Qed.
+
+(* ---- the full statement: NOT proved (monitored by checks/c02.py) ------------------------------- *)
+(* For every source of the class core_doc and any two of the 192 sets: the same event stream, and
+   the same analysis result under the extension records read off the two sets, as soon as the
+   converter-dependent triggers are absent (oracle_quiet: no number+known-unit phrase in a step
+   text, timers with a number and a time unit).
+   What separates the proved C02_pipeline_invariant_partial from it: there the absence of bracketed
+   keys and of reference modifiers is a hypothesis on the event stream (quiet_event), here it has
+   to follow from core_doc.  The statement's "with no errors" is not part of it either: core_doc
+   admits malformed input such as "@{}", which reports the same error under every set. *)
 Definition C02_full_statement : Prop :=
+  forall (Ucls : N -> ucls) (cfg : pcfg) (e1 e2 : N) (s : str) (evs : list pevent)
+         ci_key yaml_ok find_iq unit_class input acfg,
+    In e1 ext_sets -> In e2 ext_sets -> core_doc Ucls cfg s = true ->
+    events Ucls (with_ext cfg e1) s = Done evs ->
+    oracle_quiet find_iq unit_class (abstract_events evs) = true ->
+    events Ucls (with_ext cfg e2) s = Done evs
+    /\ CL.Model.Analysis.analyse ci_key yaml_ok find_iq unit_class input (aext_of e1) acfg (abstract_events evs)
+       = CL.Model.Analysis.analyse ci_key yaml_ok find_iq unit_class input (aext_of e2) acfg (abstract_events evs).
+
+(* the first formulation (syntactic class on the whole token list), kept for reference *)
+Definition C02_full_statement_tokens : Prop :=
   forall (Ucls : N -> ucls) (cfg : pcfg) (e1 e2 : N) (s : str),
     In e1 ext_sets -> In e2 ext_sets -> core_source Ucls s = true ->
     events Ucls (with_ext cfg e1) s = events Ucls (with_ext cfg e2) s.
